@@ -343,14 +343,14 @@ def r14g(F):
 		if not srt:
 			out.append(Result('14.g', False, 'order:no-sort@' + label, '%s::write no longer sorts the merged custom TLV list' % label, where=F.where(wfn)))
 			continue
-		grow = set(fu.call_blocks(lambda p: p.startswith('alloc::vec::Vec::') and p.rsplit('::', 1)[-1] in ('extend', 'push', 'append', 'insert', 'extend_from_slice') or p.endswith('Extend::extend')))
+		grow = set(fu.call_blocks(lambda p: p.startswith('alloc::vec::Vec::') and p.rsplit('::', 1)[-1] in ('extend', 'push', 'append', 'insert', 'extend_from_slice') or p.endswith(('Extend::extend', 'Extend>::extend'))))
 		bad = []
 		for b in srt:
 			after = fu.reach([s2 for s2 in fu.succ(b)])
 			# growth of a Vec of TLV tuples after the sort, before the arm returns
 			for g in grow & after:
 				ty = fu.blocks[g]['t'][2].get('g') or ''
-				if 'u64' in ty and 'Vec<u8>' in ty.replace('alloc::vec::', ''):
+				if 'u64' in ty and 'Vec<u8' in ty.replace('alloc::vec::', ''):   # `Vec<u8, Global>`: the allocator parameter is spelled out
 					bad.append(fu.line_of(g))
 		# everything merged is merged before the sort: chain(..) calls precede it
 		ch = set(fu.call_blocks(lambda p: p.endswith('Iterator::chain')))
